@@ -8,11 +8,14 @@
 (* decode yields the same" has to stay true for a result one still holds.) *)
 (***************************************************************************)
 EXTENDS Judge, Sequences, Integers, TLC
-ChainProp(kind) == CASE kind = "mapping" -> "C11" [] kind = "textdec" -> "C13" [] OTHER -> "C12"
+ChainProp(kind) == CASE kind = "mapping" -> "C11" [] kind = "textdec" -> "C13" [] kind = "ser" -> "C01" [] OTHER -> "C12"
 JChain(e) ==
   LET p == ChainProp(e.kind)
       cls == e.kind \o "/" \o (IF "cls" \in DOMAIN e THEN e.cls ELSE "-") IN
   << R(p, "chain_executed", TRUE, e.r.ncalls >= Len(e.items), cls),
      R(p, "result_not_overwritten_by_later_calls", e.r.ncalls >= 1, Len(e.r.changed) = 0, cls),
-     R(p, "result_repeatable_after_caller_appends", e.r.ncalls >= 1, Len(e.r.differs) = 0, cls) >>
+     R(p, "result_repeatable_after_caller_appends", e.r.ncalls >= 1, Len(e.r.differs) = 0, cls),
+     \* for structure serialisations: every first-round result is the parsed input again (C01 on the kept results), and the memory-separation reading (C08)
+     R("C01", "kept_serialisation_is_the_consumed_input", e.kind = "ser", \A i \in 1..Len(e.items) : e.r.first[i].ok /\ e.r.first[i].out = e.items[i]["in"], cls),
+     R("C08", "kept_serialisation_not_overwritten", e.kind = "ser" /\ e.r.ncalls >= 1, Len(e.r.changed) = 0 /\ Len(e.r.differs) = 0, cls) >>
 =============================================================================
